@@ -19,6 +19,9 @@ pub mod delta;
 
 mod execution_test_tools;
 
+#[cfg(penne_verif)]
+pub mod verif;
+
 #[cfg(feature = "alpha")]
 pub use alpha::test_suite;
 
